@@ -25,6 +25,17 @@ pub fn gen(ctx: &mut Ctx) {
             cstep(COp::Auth(a0)), cstep(COp::Auth(a1)), cstep(COp::Auth(a2)), cstep(COp::Auth(a3)), cstep(COp::Auth(a4)), cstep(COp::Auth(a5)), cstep(COp::Auth(a6)), cstep(COp::Auth(a7))]);
         ctx.stat("c03.corpus");
     }
+    // stored keys whose private scalar was written without its leading zero octet still sign under their public key
+    for kind in [Kind::RefFull, Kind::Map] {
+        let id = vec![0xC3, 0, 0, 1];
+        let pk = make_passkey_short_d(ctx, id.clone(), "example.com", Some(vec![5, 5]), Some(7));
+        let w = World { kind, counter_on: true, id_len: 16, hm: Hm::None, preload: vec![pk] };
+        let mut a = simple_auth(ctx, "https://www.example.com", Some("example.com")); a.allow = Some(vec![id.clone()]);
+        let mut b = simple_auth(ctx, "https://www.example.com", Some("example.com")); b.allow = Some(vec![id.clone()]);
+        b.cd = CdMode::Hash(ctx.rng.bytes(20));      // a caller-supplied hash that is not 32 bytes long
+        run_ccase(ctx, "C03", &w, &[cstep(COp::Auth(a)), cstep(COp::Auth(b))]);
+        ctx.stat("c03.corpus.short_private_scalar");
+    }
     let n = if ctx.thorough { 1200 } else { 120 };
     for i in 0..n {
         // the in-memory map ignores the RP (known finding of C05): it gets one site per case
